@@ -937,3 +937,15 @@ func init() {
 		}
 	}
 }
+
+func init() {
+	Registry["WOBS"] = func(c *Ctx, r *Report) {
+		n := ruleObserversPure(c, r, map[string]bool{"mp4": true, "avc": true, "hevc": true, "sei": true, "aac": true, "av1": true, "bits": true})
+		fmt.Println("observers", n)
+		for _, o := range r.Obls {
+			if o.Status != Discharged {
+				fmt.Println(o.Status, o.Key, o.Pos)
+			}
+		}
+	}
+}
